@@ -101,6 +101,7 @@ class Engine(ExprMixin, CallMixin):
         self._seqset = {}
         self.heavy_ids = set()
         self.qscope = []
+        self.always_truthy = set()
         self.fstring_model = None
 
     # ------------------------------------------------------------------ obligations
